@@ -224,7 +224,7 @@ func (r *Round) pump() {
 // Returns false (inconclusive) if quiescence is not reached.
 func (r *Round) barrier() bool {
 	// let the pump finish delivering
-	deadline := time.Now().Add(15 * time.Second)
+	deadline := time.Now().Add(120 * time.Second) // watchdog only (expiry = inconclusive)
 	for r.W.PendingAll() > 0 {
 		if time.Now().After(deadline) {
 			r.inconcl = append(r.inconcl, "event pump did not drain")
